@@ -1289,7 +1289,13 @@ class EffectDomain(DefaultDomain):
         if d in ("set", "frozenset") and len(call.args) <= 1 and not call.keywords:
             if not call.args:
                 return [val(("set", ("empty",)), st)]
-            return [r if r.kind == "exc" else val(("set", ("copy", r.value)), r.state) for r in interp._forced(interp.eval(call.args[0], st, fr), fr)]
+            out_ = []
+            for r in interp._forced(interp.eval(call.args[0], st, fr), fr):
+                v_ = r.value
+                if r.kind == "val" and isinstance(v_, tuple) and v_[:1] in (("kwdict",), ("kwitems",)):
+                    v_ = ("tuple",) + tuple(self.iter_exact(v_))   # set(<a dict>): its keys
+                out_.append(r if r.kind == "exc" else val(("set", ("copy", v_)), r.state))
+            return out_
         f_ = call.func
         if isinstance(f_, ast.Attribute) and f_.attr in ("union", "difference", "intersection", "copy") and len(call.args) <= 1 and not call.keywords and isinstance(f_.value, ast.Call):
             # <a set made by a call>.union(other) ...: a new set, nothing is changed in place
